@@ -585,7 +585,8 @@ def sym_has_star(s, depth: int = 0) -> bool:
         return "*" in s[3]
     if s and s[0] == "const":
         return False
-    return any(sym_has_star(a, depth + 1) for a in s[1:] if isinstance(a, tuple))
+    rest = s[1:] if s and isinstance(s[0], str) else s  # an untagged tuple (e.g. an index tuple) is searched entirely
+    return any(sym_has_star(a, depth + 1) for a in rest if isinstance(a, tuple))
 
 
 def has_opq(s, depth: int = 0) -> bool:
